@@ -160,16 +160,17 @@ class SleepJob(E.Job):
         self.out = f_task(self.k)
 
 
-def check_pool(ctx, name, make, n, log_frequency):
+def check_pool(ctx, name, make, n, log_frequency, as_generator=False):
     delays = [0.002 * (n - k) for k in range(n)]          # later jobs finish first
     jobs = [SleepJob(k, d) for k, d in enumerate(delays)]
     ev, closer = make()
     try:
         kw = {} if log_frequency is None else {"log_frequency": log_frequency}
-        res = call(ev.evaluate_all, jobs, **kw)
+        # experiment() and calculate() hand the evaluator a one-shot generator of jobs, algorithms a list
+        res = call(ev.evaluate_all, (j for j in jobs) if as_generator else jobs, **kw)
     finally:
         closer()
-    inp = {"evaluator": name, "jobs": n, "log_frequency": log_frequency}
+    inp = {"evaluator": name, "jobs": n, "log_frequency": log_frequency, "jobs_given_as": "generator" if as_generator else "list"}
     if isinstance(res, str):
         ctx.fail("evaluate_all-raises", inp, res, "results", "evaluator." + name)
         return
@@ -177,7 +178,7 @@ def check_pool(ctx, name, make, n, log_frequency):
     exp = [(k, f_task(k)) for k in range(n)]
     if got != exp:
         ctx.fail("results-not-in-job-order", inp, got, exp, "evaluator." + name)
-    ctx.case(("pool", name, n, log_frequency), n > 1)
+    ctx.case(("pool", name, n, log_frequency, as_generator), n > 1)
     ctx.count("pool_" + name)
 
 
@@ -188,7 +189,10 @@ class DummyAlg(C.Algorithm):
 
 def check_mixed_batches(ctx, rng):
     spec = tracer.Spec("real", 2, 2, 1, [False, True], rng)
-    for layout in ["U", "E", "EU", "UE", "EUU", "UEUEU", "UUEE", "EEUU", "EUEUUE", ""]:
+    # U = new unevaluated solution, E = evaluated one, C = offspring-style clone: a deep copy of the previous member whose
+    # variables are then changed and which is marked unevaluated (what every variation operator hands to evaluate_all)
+    import copy as _copy
+    for layout in ["U", "E", "EU", "UE", "EUU", "UEUEU", "UUEE", "EEUU", "EUEUUE", "", "EC", "ECC", "UCEC", "ECUCE"]:
         for evname in ("map", "pickle", "thread"):
             tr = tracer.Trace()
             prob = tracer.TracedProblem(spec, tr)
@@ -196,10 +200,15 @@ def check_mixed_batches(ctx, rng):
             alg = DummyAlg(prob, evaluator=ev)
             sols = []
             for ch in layout:
-                s = C.Solution(prob)
-                s.variables[:] = [t.rand() for t in prob.types]
-                if ch == "E":
-                    s.evaluate()
+                if ch == "C" and sols:
+                    s = _copy.deepcopy(sols[-1])
+                    s.variables[:] = [t.rand() for t in prob.types]
+                    s.evaluated = False
+                else:
+                    s = C.Solution(prob)
+                    s.variables[:] = [t.rand() for t in prob.types]
+                    if ch == "E":
+                        s.evaluate()
                 sols.append(s)
             before = [list(s.variables) for s in sols]
             r = call(alg.evaluate_all, sols)
@@ -225,9 +234,11 @@ def check_mixed_batches(ctx, rng):
 def check_experiment(ctx, rng):
     from platypus import NSGAII, GeneticAlgorithm, experiment, DTLZ2, ZDT1
     from concurrent.futures import ThreadPoolExecutor
-    for evname in ("default", "thread"):
+    from multiprocessing.pool import ThreadPool
+    for evname in ("default", "thread", "pool"):
         ex = ThreadPoolExecutor(3) if evname == "thread" else None
-        ev = E.SubmitEvaluator(ex.submit) if ex else None
+        tp = ThreadPool(3) if evname == "pool" else None
+        ev = E.SubmitEvaluator(ex.submit) if ex else (E.PoolEvaluator(tp) if tp else None)
         algos = [(NSGAII, {"population_size": 4}, "A4"), (NSGAII, {"population_size": 6}, "A6")]
         probs = [(DTLZ2(2), "P2"), (DTLZ2(3), "P3")]
         import random as _r
@@ -235,6 +246,8 @@ def check_experiment(ctx, rng):
         res = call(platypus.experiment, algos, probs, seeds=3, nfe=12, evaluator=ev)
         if ex:
             ex.shutdown()
+        if tp:
+            tp.terminate()
         inp = {"evaluator": evname}
         if isinstance(res, str):
             ctx.fail("experiment-raises", inp, res, "results", "experimenter.experiment")
@@ -308,6 +321,9 @@ def run(ctx, drv):
             for lf in (None, 1, 2, n, n + 1, 0, -1):
                 check_pool(ctx, name, mk, n, lf)
                 reqs.append(f"chunks {0 if lf is None else lf} {n}"); post.append(lambda g: None)
+    for name, mk in makers:
+        for n in (0, 1, 2, 5):
+            check_pool(ctx, name, mk, n, None, as_generator=True)
     check_pool(ctx, "ProcessPoolEvaluator", mk_process, 4, None)
     if not ctx.quick():
         check_pool(ctx, "ProcessPoolEvaluator", mk_process, 7, 2)
